@@ -752,6 +752,11 @@ class _GzipMessageDelegate(httputil.HTTPMessageDelegate):
         start_line: httputil.RequestStartLine | httputil.ResponseStartLine,
         headers: httputil.HTTPHeaders,
     ) -> Awaitable[None] | None:
+        # headers_received is called once per message, i.e. again for the
+        # final response after a 1xx interim response: the coding of a
+        # message is decided by its own headers only.
+        self._decompressor = None
+        self._compressed_data_seen = False
         if headers.get("Content-Encoding", "").lower() == "gzip":
             self._decompressor = GzipDecompressor()
             # Downstream delegates will only see uncompressed data,
